@@ -32,7 +32,7 @@ PROBES = ['window_end_on_node_included', 'window_end_on_node_excluded', 'single_
 
 def budgets(tier):
     if tier == 'quick':
-        return {'runs': 320, 'max_wall': 115, 'chunk': 2}
+        return {'runs': 260, 'max_wall': 115, 'chunk': 2}
     return {'runs': 5000, 'max_wall': 1700, 'chunk': 3}
 
 
